@@ -259,12 +259,16 @@ fn start_states() -> Vec<String> {
         "A: b\n\nB: c\n\nC: d\n",
         "A:b\nB:\n c\n",
         "A: b\n# c",
+        // names that differ from the operands only in letter case are different fields
+        "a: 1\nc: 2\n",
+        "X: 0\na: 1\nA: 2\n\nc: 3\n",
     ];
     let mut v: Vec<String> = texts.iter().map(|t| format!("t.{}", es(t))).collect();
     let docs: Vec<Vec<Vec<(String, String)>>> = vec![
         vec![],
         vec![vec![("A".into(), "b".into())]],
         vec![vec![("A".into(), "b".into()), ("B".into(), "l1\nl2".into())], vec![("C".into(), "d".into())]],
+        vec![vec![("a".into(), "1".into()), ("c".into(), "2".into())]],
     ];
     for d in docs {
         v.push(format!("d.{}", enc_doc(&d)));
